@@ -68,6 +68,7 @@ func init() {
 			add(ShutdownParams{Case: "rebalance", Checkpoint: "auto", Membership: "static"}, 4)
 			add(ShutdownParams{Case: "rebalance", Checkpoint: "auto", Mitigation: true, Membership: "dynamic"}, 4)
 			add(ShutdownParams{Case: "absorbed", Checkpoint: "auto", Membership: "static", MaxPoint: 2}, 1)
+			add(ShutdownParams{Case: "slowfailsave", Checkpoint: "auto", Membership: "static", MaxPoint: 6}, 1)
 			add(ShutdownParams{Case: "afterrebalance", Checkpoint: "auto", Membership: "static", MaxPoint: 1}, 1)
 			add(ShutdownParams{Case: "afterrebalance", Checkpoint: "auto", Membership: "static", MaxPoint: 1, OldServer: true}, 1)
 			add(ShutdownParams{Case: "slowobserve", Checkpoint: "auto", Mitigation: true, Membership: "static", MaxPoint: 24}, 2)
@@ -372,6 +373,22 @@ func shutdownMain(p ShutdownParams) {
 			return gocbcore.SimAnswer{}
 		}
 		doClose()
+	case "slowfailsave":
+		// new progress; the store has become slow AND failing (every checkpoint write is answered with an error
+		// after 12 s - longer than the checkpoint interval): the closing save takes its time and fails, the periodic
+		// schedule ticks meanwhile and queues behind it. When Close() has returned nothing runs any more.
+		c.Append(0, marker(3, 3), symbolPacket("M", 3))
+		c.WaitIdle()
+		vrt.Quiesce()
+		c.Fault = func(r *gocbcore.SimRequest) gocbcore.SimAnswer {
+			if (r.Kind == "mutatein" || r.Kind == "set") && strings.Contains(r.Key, ":checkpoint:") {
+				return gocbcore.SimAnswer{Kind: "delayerr", Delay: 12 * time.Second, Err: &gocbcore.KeyValueError{InnerError: gocbcore.ErrTemporaryFailure, StatusCode: 0x86}}
+			}
+			return gocbcore.SimAnswer{}
+		}
+		vrt.Sleep(time.Duration(k) * 2 * time.Second) // Close() at different phases of the checkpoint interval
+		doClose()
+		settledAtCall = map[uint16]uint64{} // the store rejects everything: nothing can be demanded of it
 	case "afterrebalance":
 		// a complete rebalance (close, delay, re-open), then the shutdown
 		dcpStream(e).Rebalance()
@@ -497,6 +514,14 @@ func shutdownMain(p ShutdownParams) {
 	}
 	if len(e.Cons.Events) != nEv {
 		vrt.Failf("%s: %d events delivered after Close() returned", desc, len(e.Cons.Events)-nEv)
+	}
+	// the library's periodic loops have ended (two minutes after Close() returned none of their threads is left)
+	for _, th := range vrt.LiveThreads() {
+		for _, loop := range []string{"checkpoint).StartSchedule", "healthCheck).", "rollbackMitigation)."} {
+			if strings.Contains(th, loop) {
+				vrt.Failf("%s: background activity after Close() returned: the thread %s is still alive", desc, th)
+			}
+		}
 	}
 	for vb := uint16(0); vb < 2; vb++ {
 		if c.StreamOpen(vb) {
